@@ -43,6 +43,15 @@ CONSTANTS Names,       \* identifiers used by name events, e.g. {"a","b"}
                        \*   ("external": lib lies outside the project, on its path;
                        \*    "shadowed": lib is a top-level module, the first module lives
                        \*    in a package that contains a sibling module of the same name)
+          OneLiners,   \* subset of BOOLEAN: {FALSE}, or {FALSE, TRUE} to allow def / class
+                       \*   statements written on one logical line (`def f(a): b = [..` continued
+                       \*   over several physical lines): same scoping, different layout
+          Blocks,      \* compound statements the binders and nested definitions of a block may
+                       \*   be written in: subset of {"none", "with0", "if", "for", "try", "while"}
+                       \*   ("with0": `with cm():` without `as`).  They are not scopes: same rule
+          Roles,       \* roles of a def directly in a class: subset of {"plain", "init", "call"}
+                       \*   ("init" / "call": the def is `__init__` / `__call__`; the class is then
+                       \*    instantiated, and the instance called, instead of calling the def)
           LibNames,    \* names the second module may have: "lb", and members of Names
                        \*   (a module named like a top-level name it defines)
           ModFresh,    \* fresh module names: targets of RenameModule
@@ -59,7 +68,9 @@ NoName == "-"
 AllNames == Names \cup Fresh
 
 ParamOps    == {"param", "posonly", "kwonly", "vararg", "kwarg"}
-StmtBindOps == {"bind", "import", "importfrom", "for", "with", "except",
+\* "with2": the target of a later item of a multi-item with statement whose earlier
+\*          item has no `as` (`with cm(), cm() as n:`); binds like "with"
+StmtBindOps == {"bind", "import", "importfrom", "for", "with", "with2", "except",
                 "aug", "del", "matchcap", "walrus", "annbind"}
 DeclOps     == {"global", "nonlocal"}
 Decoys      == {"cmtdecoy", "strdecoy"}       \* the identifier inside a comment / a string
@@ -195,7 +206,7 @@ BScope(P, e) ==
 \* n: int, n += ..) reads the global at run time although the symbol table calls
 \* it local: its binding is not statically determined, and neither is any other
 \* token of that name for the purposes of occurrence finding and renaming.
-StrongOps == {"bind", "import", "importfrom", "for", "with", "walrus", "matchcap"}
+StrongOps == {"bind", "import", "importfrom", "for", "with", "with2", "walrus", "matchcap"}
 RefOps    == {"use", "fuse", "aug", "iteruse", "defuse", "call"}
 EvScope(P, e) ==
   CASE e[2] \in {"iteruse", "defuse"}          -> Parent(P, e[1])
@@ -305,7 +316,8 @@ WellFormed(P) ==
 -----------------------------------------------------------------------------
 (* building programs *)
 Init ==
-  /\ scopes = << [kind |-> "module", parent |-> 0, name |-> NoName] >>
+  /\ \E b \in Blocks :
+       scopes = << [kind |-> "module", parent |-> 0, name |-> NoName, one |-> FALSE, blk |-> b, role |-> "plain"] >>
   /\ ev = {}
   /\ lib \in Libs
   /\ libname \in (IF lib = "none" THEN {"lb"} ELSE LibNames)
@@ -317,16 +329,29 @@ Init ==
 \* scope or one of its ancestors.  def / class are statements: they nest in
 \* module, function and class blocks only; comprehensions and lambdas are
 \* expressions and nest anywhere.
-AddScope(kind, par, name) ==
+\* A one-line def / class holds simple statements only: no nested scopes, and (see
+\* AddEvent) only plain assignments besides the parameters.
+AddScope(kind, par, name, one, blk, role) ==
   /\ phase = "build"
   /\ Len(scopes) < MaxScopes
   /\ kind \in Kinds
   /\ par \in AncSelf(Prog, Len(scopes))
+  /\ ~scopes[par].one
+  /\ one \in OneLiners
+  /\ one => kind \in {"function", "class"}
+  /\ blk \in Blocks
+  /\ (blk # "none") => (kind \in {"function", "class"} /\ ~one)
+  /\ role \in Roles
+  \* __init__ / __call__: an unnamed def directly in an unnamed class, one of each per class
+  /\ (role # "plain") =>
+        /\ kind = "function" /\ name = NoName /\ ~one
+        /\ scopes[par].kind = "class" /\ scopes[par].name = NoName
+        /\ \A i \in 1..Len(scopes) : scopes[i].parent = par => scopes[i].role # role
   /\ IF kind \in {"function", "class"}
        THEN /\ scopes[par].kind \in {"module", "function", "class"}
             /\ name \in ScopeNames \cup {NoName}
        ELSE name = NoName
-  /\ scopes' = Append(scopes, [kind |-> kind, parent |-> par, name |-> name])
+  /\ scopes' = Append(scopes, [kind |-> kind, parent |-> par, name |-> name, one |-> one, blk |-> blk, role |-> role])
   /\ UNCHANGED <<ev, lib, libname, phase, ren, pre>>
 
 AddEvent(s, op, n) ==
@@ -334,6 +359,7 @@ AddEvent(s, op, n) ==
   /\ Cardinality(ev) < MaxEv
   /\ s \in 1..Len(scopes)
   /\ op \in Ops \cap OpsOf(scopes[s].kind)
+  /\ scopes[s].one => op \in {"bind", "param"}
   /\ (op \in SibRefOps) => lib = "shadowed"
   /\ (op \in LibRefOps) => lib # "none"
   /\ n \in Names
@@ -441,7 +467,9 @@ RenameModule(new) ==
   /\ pre' = Prog
   /\ UNCHANGED <<scopes, ev, lib>>
 
-AnyAddScope == \E k \in Kinds, p \in 1..Len(scopes), nm \in ScopeNames \cup {NoName} : AddScope(k, p, nm)
+AnyAddScope == \E k \in Kinds, p \in 1..Len(scopes), nm \in ScopeNames \cup {NoName}, one \in OneLiners,
+                    b \in Blocks, ro \in Roles :
+                 AddScope(k, p, nm, one, b, ro)
 AnyAddEvent == \E s \in 1..Len(scopes), op \in Ops, n \in Names : AddEvent(s, op, n)
 AnyAddLibEvent == \E op \in Ops, n \in Names : AddLibEvent(op, n)
 AnyRename   == \E r \in 1..Len(scopes), n \in Names, new \in AllNames : Rename(r, n, new)
